@@ -12,6 +12,10 @@ TRUST = ("Trusted base: the AST instrumenter and simrt scheduler (syntactic rewr
          "Sampling, not enumeration: a clean batch is evidence, not proof. Standard library, codec and generated code are atomic to the scheduler.")
 
 CLAIMED = {
+    "C08": ("5/C08", "Seeded search over interleavings of concurrent callers, the client's sender/receiver goroutines and per-packet Recv goroutines of the real ServantProxy/AdapterProxy/TarsClient against a scripted peer that answers in any order, late, duplicated, with stray ids and id-0 push frames (independent reference codec); "
+            "oracle per call: the response's id equals the id of its own request as seen on the wire and the payload is the echo of its own payload, or a timeout error; ids on the wire are never 0; no two concurrently outstanding calls share an id (id counter preset near the wrap in some runs)."),
+    "C09": ("5/C09", "Seeded search over peer behaviours (silent, slow, closing at every point of the exchange, resetting, garbage, refusing, black-holed, crash/restart, not reading) x deadlines (proxy, per-call, context) x client time-outs x schedules, with the real client stack; "
+            "oracles: every call returns within effective deadline + dial time-out + slack (slack = one time-wheel tick + injected stalls), resource counters (queueLen, pending-reply table, invokeNum) return to their previous values after quiescence, late replies never reach another call; a fault-free variant in which every call must succeed runs separately."),
     "C19": ("5/C19", "Seeded search over interleavings of submitters, dispatcher, workers and Release of the real gpool under a one-at-a-time scheduler; "
             "oracles: exactly-once execution, parallelism high-water mark, submitters blocked only while the queue is full (sampled in quiescent states), "
             "Release of an idle pool returns, Release returns only after running jobs finished, no job starts after it. Exploration is the right level: the property quantifies over schedules, which are sampled, replayable and minimised."),
